@@ -327,6 +327,7 @@ def check_recalculate(rec, d):
 
 
 XTOK = ["/", "//", "@", "x", "GL", "[", "]", "0", "12", " ", "MemoryTextSource", "Nope", "*"]
+KNOWN_CLASSES = {"GL", "GS", "GI", "GR", "AwareASTNode"}
 FIELDS = [None, "items", "child", "lst", "nosuch"]
 INDICES = [None, 0, 1, 12]
 CLASSES = [None, "GL", "GS", "GI", "AwareASTNode"]
@@ -379,6 +380,54 @@ def check_bushy(rec):
             rec.violation("C20|bushy|sequence", dict(case, traversal=name), f"legacy {name}: {len(got)} nodes yielded, {len(exp)} expected; first difference at {first}")
         rec.outcome(f"bushy:{name}")
     N._nodes.clear()
+
+
+import re as _re
+
+_TOK = _re.compile(r"\s*(?:(/)|(@)|(\[)|(\])|([0-9])|([A-Za-z_][A-Za-z_0-9]*))")
+
+
+def legacy_well_formed(text, known_classes):
+    """Recognizer written from the documented grammar: xpath = element* self; element = '/' [@NAME] ['[' DIGIT* ']'] [CLASS];
+    self = the same with the class mandatory; blanks between tokens are ignored; a text that does not start with '/' is
+    '//' + text; every class name must be a known node class."""
+    if not text.startswith("/"):
+        text = "//" + text
+    toks, pos = [], 0
+    while pos < len(text):
+        if text[pos:].strip() == "":
+            break
+        m = _TOK.match(text, pos)
+        if not m:
+            return False
+        toks.append(("/", None) if m.group(1) else ("@", None) if m.group(2) else ("[", None) if m.group(3) else ("]", None) if m.group(4)
+                    else ("D", m.group(5)) if m.group(5) else ("N", m.group(6)))
+        pos = m.end()
+    i, n, last_has_class = 0, len(toks), False
+    if n == 0:
+        return False
+    while i < n:
+        if toks[i][0] != "/":
+            return False
+        i += 1
+        last_has_class = False
+        if i < n and toks[i][0] == "@":
+            if i + 1 >= n or toks[i + 1][0] != "N":
+                return False
+            i += 2
+        if i < n and toks[i][0] == "[":
+            i += 1
+            while i < n and toks[i][0] == "D":
+                i += 1
+            if i >= n or toks[i][0] != "]":
+                return False
+            i += 1
+        if i < n and toks[i][0] == "N":
+            if toks[i][1] not in known_classes:
+                return False
+            last_has_class = True
+            i += 1
+    return last_has_class
 
 
 def texts_of(steps, brackets=9):
@@ -474,13 +523,18 @@ def run_shard(cfg):
                 continue
             text = "".join(combo)
             rec.count("evaluations"); rec.count("transitions"); rec.count("traces")
+            wf = legacy_well_formed(text, KNOWN_CLASSES)
             try:
                 xp = ASTXpath(text)
                 for tc in tcs[:1]:
                     xp.match(tc.root)
                 rec.outcome("text:accepted")
+                if not wf:
+                    rec.violation("C20|xpath|malformed-accepted", {"text": text}, f"legacy ASTXpath({text!r}) accepted a text the documented grammar does not derive")
             except ASTXpathDefinitionError:
                 rec.outcome("text:rejected")
+                if wf:
+                    rec.violation("C20|xpath|well-formed-rejected", {"text": text}, f"legacy ASTXpath({text!r}) rejected a text the documented grammar derives")
             except Exception as e:  # noqa: BLE001
                 rec.violation(f"C20|xpath|escapes|{type(e).__name__}", {"text": text}, f"legacy ASTXpath({text!r}) raised {type(e).__name__}: {str(e)[:120]}")
     rec.bound = {"max_nodes": cfg["n"], "xpath_steps": 3}
@@ -505,10 +559,14 @@ def replay(case, cfg):
         # (family "huge" and "small" carry their tree in the case)
         check_xpath(rec, tcs, parse_rendered(case["xpath"]), case["xpath"], family=case.get("family", "shaped"))
     elif "text" in case:
+        wf = legacy_well_formed(case["text"], KNOWN_CLASSES)
         try:
             ASTXpath(case["text"])
+            if not wf:
+                rec.violation("C20|xpath|malformed-accepted", case, "reproduced")
         except ASTXpathDefinitionError:
-            pass
+            if wf:
+                rec.violation("C20|xpath|well-formed-rejected", case, "reproduced")
         except Exception as e:  # noqa: BLE001
             rec.violation(f"C20|xpath|escapes|{type(e).__name__}", case, "reproduced")
     else:
